@@ -114,8 +114,19 @@ package types
 //@ ensures [gas] result == nil ==> h.GasLimit <= 0x7fffffffffffffff && h.GasUsed <= h.GasLimit
 
 // ethash proof-of-work verification (cache generation, hashimoto): outside the verified subset, assumed
-// verif:func VerifyCascadingFields
+// verif:func New
 //@ trusted
+// verif:func (*Ethash).VerifySeal
+//@ trusted
+// verif:func (*Ethash).Close
+//@ trusted
+
+// the seal of exactly this header is checked by an ethash instance that keeps its verification cache in memory
+// (no cache / dataset directory, no remote sealer): nothing node-local enters the verdict (C10, C14)
+// verif:func VerifyCascadingFields
+//@ callsite New [in-memory-no-remote] config.CacheDir == "" && config.DatasetDir == "" && len(notify) == 0
+//@ callsite VerifySeal [this-header] *dollar_header == *header.ToVerifyHeader() && !fulldag
+//@ ensures [seal-checked] result == nil ==> ncalls("VerifySeal") == 1 && callsok("VerifySeal")
 
 // basic validation, the header rules and - except on Rinkeby (chain id 4) - bounded extra data and the PoW seal
 // verif:func checkValidity
